@@ -25,6 +25,8 @@ pub enum Step {
     NextRound,
     /// a voter's PING fails
     Fail { voter: u8 },
+    /// (expiry regime only) real time passes until every vote cast so far has certainly expired
+    RealIdle,
 }
 
 #[derive(Clone, Debug, PartialEq, Eq, Hash, Serialize, Deserialize)]
@@ -36,7 +38,12 @@ pub struct Case {
     pub first_incoming: u8,
     pub n_cands: u8,
     pub steps: Vec<Step>,
+    /// expiry regime: votes live for 80 ms of REAL time (IpVote reads std::time::Instant)
+    #[serde(default)]
+    pub expiry: bool,
 }
+
+pub const SHORT_VOTE_MS: u64 = 80;
 
 pub struct C17;
 
@@ -58,7 +65,7 @@ async fn run(case: &Case, rep: &mut CaseReport) -> Option<(String, String)> {
         key_idx: 0,
         mode: if case.dual { Mode::Dual } else { Mode::Ip4 },
         enr_peer_update_min: Some(m),
-        vote_duration: Some(Duration::from_secs(600)),
+        vote_duration: Some(if case.expiry { Duration::from_millis(SHORT_VOTE_MS) } else { Duration::from_secs(600) }),
         ping_interval: Some(Duration::from_secs(10)),
         ..Default::default()
     })
@@ -97,8 +104,15 @@ async fn run(case: &Case, rep: &mut CaseReport) -> Option<(String, String)> {
     let mut failed: std::collections::HashSet<usize> = std::collections::HashSet::new();
     let mut named: HashMap<SocketAddr, std::collections::HashSet<usize>> = HashMap::new();
     let mut vote_changed = false;
+    // expiry regime: for every (voter, address) the instant AFTER the service processed the latest
+    // PONG of that voter naming that address; the vote it may have cast then is certainly expired once
+    // more than the vote duration has passed since
+    let mut named_at: HashMap<(usize, SocketAddr), std::time::Instant> = HashMap::new();
+    let mut real_idles = 0;
+    let mut updates_after_idle = 0u64;
     for step in &case.steps {
         let mut input_is_pong = false;
+        let t_before = std::time::Instant::now();
         match step {
             Step::Pong { voter, cand } => {
                 let v = *voter as usize % nv;
@@ -121,6 +135,18 @@ async fn run(case: &Case, rep: &mut CaseReport) -> Option<(String, String)> {
                     Box::new(Response { id, body: ResponseBody::Pong { enr_seq: 1, ip: a.ip(), port } }),
                 ))
                 .await;
+                named_at.insert((v, a), std::time::Instant::now());
+            }
+            Step::RealIdle => {
+                if !case.expiry || real_idles >= 3 {
+                    continue;
+                }
+                real_idles += 1;
+                let t0 = std::time::Instant::now();
+                while t0.elapsed() <= Duration::from_millis(SHORT_VOTE_MS * 13 / 10 + 5) {
+                    std::thread::sleep(Duration::from_millis(5));
+                }
+                rep.class("expiry-regime/real-idle>1.3x-vote-duration");
             }
             Step::NextRound => {
                 tokio::time::sleep(Duration::from_secs(10)).await;
@@ -165,13 +191,28 @@ async fn run(case: &Case, rep: &mut CaseReport) -> Option<(String, String)> {
             let count = |a: &SocketAddr| votes.values().filter(|v| *v == a).count();
             // exact ledger: current votes; otherwise the sound upper bound: distinct voters that ever named x
             let cx = if exact { count(&x) } else { named.get(&x).map(|s| s.len()).unwrap_or(0) };
+            if case.expiry {
+                // sound upper bound: voters that named x and whose naming is not certainly expired at
+                // the moment the triggering PONG was handed to the service
+                let dur = Duration::from_millis(SHORT_VOTE_MS);
+                let alive = named_at.iter().filter(|((_, a), t)| *a == x && **t + dur >= t_before).count();
+                if real_idles > 0 {
+                    updates_after_idle += 1;
+                }
+                if alive < m {
+                    return Some((
+                        "address/updated-counting-expired-votes".into(),
+                        format!("local {fam} socket became {x}: only {alive} peer(s) named it within the last {SHORT_VOTE_MS} ms (vote duration), minimum {m}; votes older than that had certainly expired (all namings {cx})"),
+                    ));
+                }
+            }
             if cx < m {
                 return Some((
                     "address/updated-below-minimum".into(),
                     format!("local {fam} socket became {x} with {cx} current vote(s) from distinct peers, minimum {m} (votes {votes:?})"),
                 ));
             }
-            if all_eligible && exact {
+            if all_eligible && exact && !case.expiry {
                 for y in votes.values().filter(|y| **y != x && y.is_ipv4() == x.is_ipv4()) {
                     let cy = count(y);
                     if cy >= cx {
@@ -216,6 +257,10 @@ async fn run(case: &Case, rep: &mut CaseReport) -> Option<(String, String)> {
     rep.class(if all_eligible { "all-voters-eligible" } else { "some-incoming-voters" });
     rep.class(if exact { "ledger-exact-until-the-end" } else { "ledger-upper-bound-only(after a possibly ignored PONG)" });
     rep.count("updates", updates);
+    if case.expiry {
+        rep.class("expiry-regime");
+        rep.count("expiry_regime_updates_after_a_real_idle", updates_after_idle);
+    }
     None
 }
 
@@ -231,9 +276,26 @@ impl Property for C17 {
             2 => Just(Step::NextRound),
             1 => (0u8..14).prop_map(|voter| Step::Fail { voter }),
         ];
-        (any::<bool>(), 2u8..=6, 3u8..=14, prop_oneof![3 => Just(99u8), 1 => 0u8..14], 2u8..=4, proptest::collection::vec(step, 1..50))
-            .prop_map(|(dual, min, n_voters, first_incoming, n_cands, steps)| Case { dual, min, n_voters, first_incoming, n_cands, steps })
-            .boxed()
+        let free = (any::<bool>(), 2u8..=6, 3u8..=14, prop_oneof![3 => Just(99u8), 1 => 0u8..14], 2u8..=4, proptest::collection::vec(step, 1..50))
+            .prop_map(|(dual, min, n_voters, first_incoming, n_cands, steps)| Case { dual, min, n_voters, first_incoming, n_cands, steps, expiry: false });
+        // expiry regime: some voters name an address, real time passes until those votes have
+        // expired, then further voters name it (and the early ones may vote again in a new ping round)
+        let estep = prop_oneof![
+            10 => (0u8..8, prop_oneof![5 => Just(0u8), 2 => Just(1u8)]).prop_map(|(voter, cand)| Step::Pong { voter, cand }),
+            2 => Just(Step::NextRound),
+            2 => Just(Step::RealIdle),
+        ];
+        let expiry = (any::<bool>(), 2u8..=4, 0u8..=3, proptest::collection::vec(estep, 0..12)).prop_map(|(dual, min, before, tail)| {
+            let before = before.min(min - 1).max(1);
+            let mut steps: Vec<Step> = (0..before).map(|v| Step::Pong { voter: v, cand: 0 }).collect();
+            steps.push(Step::RealIdle);
+            for v in before..min {
+                steps.push(Step::Pong { voter: v, cand: 0 });
+            }
+            steps.extend(tail);
+            Case { dual, min, n_voters: 8, first_incoming: 99, n_cands: 2, steps, expiry: true }
+        });
+        prop_oneof![40 => free, 1 => expiry].boxed()
     }
     fn run(case: &Case) -> CaseReport {
         let mut rep = CaseReport::default();
@@ -244,11 +306,11 @@ impl Property for C17 {
         rep
     }
     fn rule() -> String {
-        "a real service with a scripted handler (IPv4 or dual stack, enr_peer_update_min 2..6, vote duration 10 min, ping interval 10 s virtual, connectivity timer off); 3..14 voters become table members through Established (outgoing; in a quarter of the cases some are incoming); the service's own PINGs are answered per script with PONGs naming one of 2..4 candidate addresses (IPv6 candidates in dual stack), voters change their vote in later ping rounds, some PINGs fail or stay unanswered. Ledger: latest vote per voter. Whenever the UDP socket of local_enr() changes between two steps: the step's input was a PONG; the new address has >= minimum current votes from distinct voters; (all voters eligible) it is the unique maximum and every rival has fewer than 0.7 x its votes + 0.5; seq increased, the signature verifies, and Event::SocketUpdated(address) was emitted in that step; an address named by fewer than the minimum number of peers is never taken. Non-trivial = two candidates with >= 2 votes each, a voter changing its vote, or an update.".into()
+        "a real service with a scripted handler (IPv4 or dual stack, enr_peer_update_min 2..6, vote duration 10 min, ping interval 10 s virtual, connectivity timer off); 3..14 voters become table members through Established (outgoing; in a quarter of the cases some are incoming); the service's own PINGs are answered per script with PONGs naming one of 2..4 candidate addresses (IPv6 candidates in dual stack), voters change their vote in later ping rounds, some PINGs fail or stay unanswered. Ledger: latest vote per voter. Whenever the UDP socket of local_enr() changes between two steps: the step's input was a PONG; the new address has >= minimum current votes from distinct voters; (all voters eligible) it is the unique maximum and every rival has fewer than 0.7 x its votes + 0.5; seq increased, the signature verifies, and Event::SocketUpdated(address) was emitted in that step; an address named by fewer than the minimum number of peers is never taken. Expiry regime (one case in 41): vote duration 80 ms of real time, some voters name an address, a measured real idle period of more than 1.3 x the vote duration follows, then further voters name it; an update then needs at least the minimum number of peers whose naming is not certainly expired. Non-trivial = two candidates with >= 2 votes each, a voter changing its vote, or an update.".into()
     }
     fn assumptions() -> Vec<String> {
         vec![
-            "votes never expire within a case (10 min real-time vote duration); the expiry regime is not explored (IpVote reads std::time::Instant)".into(),
+            "ordinary cases: votes never expire (10 min real-time vote duration). One case in 41 runs in the expiry regime: 80 ms vote duration, real idle periods of > 1.3 x that (IpVote reads std::time::Instant); there the margin clause is not evaluated (a rival's votes may have expired) and only the one-directional claim is made that an update needs >= minimum peers whose naming of the address is not CERTAINLY expired (sound under any machine load)".into(),
             "with incoming voters in the script (eligible only in dual stack while votes are missing) the majority-margin clause is not asserted, only minimum, seq, signature and event".into(),
             "the margin check uses 0.7 x max + 0.5 so that it does not depend on the rounding mode of the implementation's threshold".into(),
         ]
